@@ -1569,6 +1569,31 @@ theorem B_chain_sound (a b : M2 K) (Z0 : K) (p q r : Port K) (hc : Cascade p q r
   obtain ⟨h3, h4⟩ := hb
   constructor <;> grind
 
+/-- the `cascade` spelling of both chain-matrix classes is the same signal-order product -/
+theorem A_cascade_sound (a b : M2 K) (Z0 : K) (p q r : Port K) (hc : Cascade p q r)
+    (ha : rel .A a Z0 p) (hb : rel .A b Z0 q) : rel .A (A_cascade a b) Z0 r := by
+  obtain ⟨V1, I1, V2, I2⟩ := p
+  obtain ⟨V1', I1', V2', I2'⟩ := q
+  obtain ⟨V1'', I1'', V2'', I2''⟩ := r
+  simp only [Cascade] at hc
+  obtain ⟨c1, c2, c3, c4, c5, c6⟩ := hc
+  simp only [rel, lin, A_cascade, A_chain, M2.mul] at *
+  obtain ⟨h1, h2⟩ := ha
+  obtain ⟨h3, h4⟩ := hb
+  constructor <;> grind
+
+theorem B_cascade_sound (a b : M2 K) (Z0 : K) (p q r : Port K) (hc : Cascade p q r)
+    (ha : rel .B a Z0 p) (hb : rel .B b Z0 q) : rel .B (B_cascade a b) Z0 r := by
+  obtain ⟨V1, I1, V2, I2⟩ := p
+  obtain ⟨V1', I1', V2', I2'⟩ := q
+  obtain ⟨V1'', I1'', V2'', I2''⟩ := r
+  simp only [Cascade] at hc
+  obtain ⟨c1, c2, c3, c4, c5, c6⟩ := hc
+  simp only [rel, lin, B_cascade, B_chain, M2.mul] at *
+  obtain ⟨h1, h2⟩ := ha
+  obtain ⟨h3, h4⟩ := hb
+  constructor <;> grind
+
 /-- chains of three associate, so "signal order" is well defined -/
 theorem A_chain_assoc (a b c : M2 K) : A_chain (A_chain a b) c = A_chain a (A_chain b c) := by
   simp only [A_chain, M2.mul, M2.mk.injEq]; refine ⟨?_, ?_, ?_, ?_⟩ <;> ring
